@@ -24,6 +24,8 @@ import (
 
 const c11DriverName = "c11rec"
 
+var c11Bg = context.Background()
+
 type c11Event struct {
 	Kind string `json:"k"` // begin prepare exec query commit rollback
 	Conn int    `json:"c"`
